@@ -43,11 +43,10 @@ STR_REL_METHODS = {"startswith", "endswith", "removeprefix", "removesuffix", "fi
 SEARCH_METHODS = {"find", "rfind", "index", "rindex"}
 WRAPPERS = {"sorted", "list", "set", "reversed", "tuple", "frozenset", "iter"}
 
-# user-supplied patterns matched against names *by design* (regexes in rules): normally recognised by the static type of the
-# filter the pattern is read from (ModuleNameRegexFilter); this table is only the fallback for today's names
-REVIEWED_PATTERN_SITES = {
-    ("pytestarch.eval_structure.module_name_converter", "ModuleNameConverter._name_matches_pattern"): "have_name_matching(regex): the user's regex is matched against module names by design (C11.R2 fixes the matching function)",
-}
+# user-supplied patterns matched against names *by design* (regexes in rules) are recognised by role: the pattern is, unmodified,
+# the identifier of filters whose static type is ModuleNameRegexFilter or that were selected by the public flag
+# `identifier_is_regex` (see _user_regex). No site is exempted by name any more; the table stays for additions.
+REVIEWED_PATTERN_SITES: dict[tuple[str, str], str] = {}
 
 
 @dataclass
@@ -1488,11 +1487,146 @@ def _boundary_predicate(repo: Repo, f: FuncInfo, hay: str = "", needle: str = ""
 # --------------------------------------------------------------------------- user-supplied regular expressions
 
 
+REGEX_FLAG = "identifier_is_regex"  # public property of every module filter: True for filters whose identifier is a user regex
+
+
+def _flag_holds(g: FuncInfo, at: ast.AST, recv: str) -> bool:
+    """`<recv>.identifier_is_regex` is among the conditions under which `at` is evaluated."""
+
+    def positive(e: ast.expr, pol: bool) -> bool:
+        if isinstance(e, ast.UnaryOp) and isinstance(e.op, ast.Not):
+            return positive(e.operand, not pol)
+        if isinstance(e, ast.BoolOp) and isinstance(e.op, ast.And) and pol:
+            return any(positive(v, True) for v in e.values)
+        if isinstance(e, ast.BoolOp) and isinstance(e.op, ast.Or) and not pol:
+            return any(positive(v, False) for v in e.values)
+        return pol and isinstance(e, ast.Attribute) and e.attr == REGEX_FLAG and norm(e.value) == recv
+
+    try:
+        return any(positive(e, pol) for e, pol in conds(g, at))
+    except Exception:  # noqa: BLE001
+        return False
+
+
+def _regex_typed(T: Types, g: FuncInfo, e: ast.expr, elements: bool = False) -> bool:
+    t = T.expr(g, e)
+    if all(m == ("unknown",) for m in members(t)) and isinstance(e, ast.Name) and isinstance(g.node, ast.Lambda) and e.id in g.param_names:
+        it = _lambda_iterable(g)
+        if it is not None:
+            t = elem_type(T.expr(g.outer, it))
+    if elements:
+        t = elem_type(t)
+    ms = members(t)
+    return bool(ms) and all(m[0] == "cls" and m[1].rsplit(".", 1)[-1] == REGEX_FILTER for m in ms)
+
+
+def _is_regex_filter(repo: Repo, g: FuncInfo, e: ast.expr, at: ast.AST, depth: int = 0) -> bool:
+    """The filter object `e` (used at node `at` of `g`) is a regex filter: by static type, or because it was selected by the
+    public flag `identifier_is_regex` (guard on the path, filtered comprehension / loop, helper returning the selected ones)."""
+    T = types_of(repo)
+    if depth > 7:
+        return False
+    if _regex_typed(T, g, e) or _flag_holds(g, at, norm(e)):
+        return True
+    if isinstance(e, ast.Call) and _call_name(e) == "cast" and len(e.args) == 2:
+        return norm(e.args[0]).rsplit(".", 1)[-1].strip("'\"") == REGEX_FILTER or _is_regex_filter(repo, g, e.args[1], at, depth + 1)
+    if not isinstance(e, ast.Name):
+        return False
+    if isinstance(g.node, ast.Lambda):
+        if e.id in g.param_names:
+            it = _lambda_iterable(g)
+            return it is not None and g.outer is not None and _all_regex_filters(repo, g.outer, it, depth + 1)
+        return g.outer is not None and _is_regex_filter(repo, g.outer, e, g.node, depth + 1)
+    binds = origins(repo)._bindings(g, e.id)
+    if e.id in g.param_names:
+        if binds:
+            return False
+        args = _callers_args(repo, g, e.id)
+        return bool(args) and all((_all_regex_filters(repo, h, a.value, depth + 1) if isinstance(a, ast.Starred) else _is_regex_filter(repo, h, a, a, depth + 1)) for h, a in args)
+    if not binds:
+        return g.outer is not None and _is_regex_filter(repo, g.outer, e, g.node, depth + 1)
+    for kind, src, pos in binds:
+        if kind == "elem" and not pos:
+            if not _all_regex_filters(repo, g, src, depth + 1):
+                return False
+        elif kind == "value" and not pos:
+            if not _is_regex_filter(repo, g, src, src, depth + 1):
+                return False
+        else:
+            return False
+    return True
+
+
+def _all_regex_filters(repo: Repo, g: FuncInfo, c: ast.expr, depth: int = 0, pos: tuple = ()) -> bool:
+    """Every element of the collection `c` is a regex filter."""
+    T = types_of(repo)
+    if depth > 7:
+        return False
+    if not pos and _regex_typed(T, g, c, elements=True):
+        return True
+    if pos:
+        if isinstance(c, ast.Tuple) and pos[0] < len(c.elts):
+            return _all_regex_filters(repo, g, c.elts[pos[0]], depth + 1, pos[1:])
+    if isinstance(c, ast.Call):
+        nm = _call_name(c)
+        if isinstance(c.func, ast.Name) and nm in WRAPPERS and c.args:
+            return _all_regex_filters(repo, g, c.args[0], depth + 1, pos)
+        if isinstance(c.func, ast.Name) and nm == "filter" and len(c.args) == 2 and not pos:
+            fn = c.args[0]
+            if isinstance(fn, ast.Lambda) and len(fn.args.args) == 1:
+                lf = getattr(fn, "_func", None)
+                if lf is not None and _flag_holds(lf, fn.body, fn.args.args[0].arg) is False:
+                    b = fn.body
+                    if isinstance(b, ast.Attribute) and b.attr == REGEX_FLAG and norm(b.value) == fn.args.args[0].arg:
+                        return True
+            return _all_regex_filters(repo, g, c.args[1], depth + 1)
+        cs = origins(repo)._callees(g, c)
+        if cs:
+            for h in cs:
+                rets = origins(repo)._returns(h)
+                if not rets or not all(_all_regex_filters(repo, h, r, depth + 1, pos) for r in rets):
+                    return False
+            return True
+        return False
+    if isinstance(c, (ast.ListComp, ast.SetComp, ast.GeneratorExp)) and not pos:
+        if isinstance(c.elt, ast.Name):
+            return _is_regex_filter(repo, g, c.elt, c.elt, depth + 1)
+        return _is_regex_filter(repo, g, c.elt, c.elt, depth + 1)
+    if isinstance(c, ast.Subscript) and isinstance(c.slice, ast.Slice):
+        return _all_regex_filters(repo, g, c.value, depth + 1, pos)
+    if isinstance(c, ast.Name) and not isinstance(g.node, ast.Lambda):
+        binds = origins(repo)._bindings(g, c.id)
+        if c.id in g.param_names:
+            if binds:
+                return False
+            args = _callers_args(repo, g, c.id)
+            return bool(args) and all(not isinstance(a, ast.Starred) and _all_regex_filters(repo, h, a, depth + 1, pos) for h, a in args)
+        if not binds:
+            return g.outer is not None and _all_regex_filters(repo, g.outer, c, depth + 1, pos)
+        for kind, src, p in binds:
+            if kind != "value":
+                return False
+            if isinstance(src, (ast.List, ast.Set)) and not src.elts or (isinstance(src, ast.Call) and _call_name(src) in ("list", "set") and not src.args):
+                continue  # starts empty: see the mutators below
+            if not _all_regex_filters(repo, g, src, depth + 1, p + pos):
+                return False
+        for n in own_nodes(g.node):
+            if isinstance(n, ast.Call) and isinstance(n.func, ast.Attribute) and isinstance(n.func.value, ast.Name) and n.func.value.id == c.id and n.args:
+                if n.func.attr in ("append", "add") and not _is_regex_filter(repo, g, n.args[0], n, depth + 1):
+                    return False
+                if n.func.attr in ("extend", "update") and not _all_regex_filters(repo, g, n.args[0], depth + 1):
+                    return False
+                if n.func.attr == "insert":
+                    return False
+        return True
+    return False
+
+
 def _user_regex(repo: Repo, f: FuncInfo, pat: ast.expr) -> bool:
-    """The pattern is, unmodified, the identifier of regex filters (static type ModuleNameRegexFilter): matched against names by design."""
+    """The pattern is, unmodified, the identifier of regex filters - recognised by their static type (ModuleNameRegexFilter) or by
+    the public flag `identifier_is_regex` that selected them: a user-supplied regex, matched against names by design."""
     if isinstance(pat, (ast.JoinedStr, ast.BinOp)):
         return False
-    T = types_of(repo)
     leaves = origins(repo).value(f, pat)
     if not leaves:
         return False
@@ -1506,13 +1640,7 @@ def _user_regex(repo: Repo, f: FuncInfo, pat: ast.expr) -> bool:
             g, e, kind = sub[0]
         if not (isinstance(e, ast.Attribute) and e.attr == "identifier"):
             return False
-        t = T.expr(g, e.value)
-        if all(m == ("unknown",) for m in members(t)) and isinstance(e.value, ast.Name) and isinstance(g.node, ast.Lambda):
-            it = _lambda_iterable(g)
-            if it is not None:
-                t = elem_type(T.expr(g.outer, it))
-        ms = members(t)
-        if not ms or not all(m[0] == "cls" and m[1].rsplit(".", 1)[-1] == REGEX_FILTER for m in ms):
+        if not _is_regex_filter(repo, g, e.value, e):
             return False
     return True
 
